@@ -24,6 +24,7 @@
 #include <fstream>
 #include <cstring>
 #include <set>
+#include <map>
 
 using namespace icinga;
 
@@ -215,6 +216,8 @@ static bool l_CwInit = false;
 static std::set<std::pair<std::string, std::string>> l_BaseObjects;     // every object that existed when the case began
 static bool l_BaseTaken = false;
 static std::set<std::string> l_BaseFiles;      // object files that existed when the case began
+static std::map<std::string, size_t> l_PkgFiles;       // file deployed through ANOTHER package -> index of the tracked object it declares
+static std::set<std::string> l_PkgDirs;                // package directories this case created
 
 static void DigestValue(std::ostringstream& o, const Value& v, int depth)
 {
@@ -272,11 +275,12 @@ static void Track(const std::string& t, const std::string& n)
 	if (!IsTracked(t, n)) { l_Tracked.push_back({t, n}); l_OthersBase = OthersDigest(); }
 }
 
-// every object file below the package: <packages>/_api/<stage>/conf.d/**.conf
+// every object file below ANY config package: <packages>/<name>/<stage>/conf.d/**.conf (not only the _api package:
+// neither CreateObject nor DeleteObject may touch the stage of another package)
 static std::vector<std::string> ObjectFiles()
 {
 	std::vector<std::string> files;
-	String dir = ConfigPackageUtility::GetPackageDir() + "/_api";
+	String dir = ConfigPackageUtility::GetPackageDir();
 	Utility::GlobRecursive(dir, "*", [&files](const String& p) {
 		// the stage's own include.conf / active.conf are not object files
 		if (p.GetLength() > 5 && p.SubStr(p.GetLength() - 5) == ".conf" && p.Contains("/conf.d/")) files.push_back(p.GetData());
@@ -326,6 +330,13 @@ static std::string FileTree(size_t& count)
 		r += (r.empty() ? "" : ",") + ("T" + std::to_string(i)) + ":" + Fnv64(ReadFileBytes(p));
 	}
 	for (size_t i = 0; i < l_Tracked.size(); i++) left.erase(TrackedPath(l_Tracked[i]));
+	// files deployed through other packages, in tracking order of the object they declare: P<index>:<digest>
+	for (size_t i = 0; i < l_Tracked.size(); i++)
+		for (auto& kv : l_PkgFiles)
+			if (kv.second == i && left.count(kv.first)) {
+				r += (r.empty() ? "" : ",") + ("P" + std::to_string(i)) + ":" + Fnv64(ReadFileBytes(kv.first));
+				left.erase(kv.first);
+			}
 	std::string base = (ConfigPackageUtility::GetPackageDir() + "/_api/").GetData();
 	for (auto& p : left)
 		r += (r.empty() ? "" : ",") + ("?" + HexEnc(p.compare(0, base.size(), base) == 0 ? p.substr(base.size()) : p)) + ":" + Fnv64(ReadFileBytes(p));
@@ -463,11 +474,47 @@ static std::string Quoted(const std::string& s)
 }
 
 // an object that was NOT created at runtime (config text, package != _api)
+// pkg=<hex name> text=<hex>: the declaration is DEPLOYED as a file of a stage of the config package with that name
+// (<packages>/<name>/cwstage/conf.d/p<index>.conf; for the name `_api` itself: the path a runtime object of that name
+// has) and compiled with that package, the way the daemon loads the active stage of every package at start-up.
+static void LoadFromPackage(const std::string& tn, const std::string& name, const std::string& pkg, const std::string& text)
+{
+	size_t idx = 0;
+	for (size_t i = 0; i < l_Tracked.size(); i++) if (l_Tracked[i].type == tn && l_Tracked[i].name == name) idx = i;
+	Type::Ptr type = Type::GetByName(tn);
+	auto *ct = dynamic_cast<ConfigType *>(type.get());
+	if (ct->GetObject(name)) { Out("cw_static res=fail" + StoreLine()); return; }
+	String path;
+	if (pkg == "_api")
+		path = ConfigObjectUtility::ComputeNewObjectConfigPath(type, name);
+	else {
+		String pdir = ConfigPackageUtility::GetPackageDir() + "/" + pkg;
+		l_PkgDirs.insert(pdir.GetData());
+		path = pdir + "/cwstage/conf.d/p" + std::to_string(idx) + ".conf";
+	}
+	if (Utility::PathExists(path)) { Out("cw_static res=fail" + StoreLine()); return; }
+	Utility::MkDirP(Utility::DirName(path), 0700);
+	{ std::ofstream f(path.GetData(), std::ios::binary | std::ios::trunc); f << text; }
+	if (pkg != "_api") l_PkgFiles[path.GetData()] = idx;
+	bool ok = false;
+	try {
+		String p = path, k = pkg;
+		ok = ConfigItem::RunWithActivationContext(new Function("<cw_pkg>", [p, k]() {
+			std::unique_ptr<Expression> expr = ConfigCompiler::CompileFile(p, String(), k);
+			expr->Evaluate(*ScriptFrame::GetCurrentFrame());
+		}));
+	} catch (const std::exception&) { ok = false; }
+	if (!ok) { try { Utility::Remove(path); } catch (...) {} l_PkgFiles.erase(path.GetData()); }
+	if (tn == "ScheduledDowntime") DrainThreadPool();
+	Out(std::string("cw_static res=") + (ok ? "ok" : "fail") + StoreLine());
+}
+
 VOP(cw_static)
 {
 	CaseBegin();
 	std::string tn = a.str("type", "Host"), name = HexDec(a.str("name", "-"));
 	Track(tn, name);
+	if (a.has("pkg")) { LoadFromPackage(tn, name, HexDec(a.str("pkg", "-")), HexDec(a.str("text", "-"))); return; }
 	std::vector<std::string> parts;
 	{
 		size_t p = 0;
@@ -587,7 +634,7 @@ VOP(cw_restart)
 		}
 	ConfigItem::m_UnnamedItems.clear();
 	std::vector<std::string> files;
-	for (auto& p : ObjectFiles()) if (!l_BaseFiles.count(p)) files.push_back(p);
+	for (auto& p : ObjectFiles()) if (!l_BaseFiles.count(p) && !l_PkgFiles.count(p)) files.push_back(p);
 	bool ok = false;
 	try {
 		ok = ConfigItem::RunWithActivationContext(new Function("<cw_restart>", [files]() {
@@ -626,6 +673,9 @@ static struct CwCaseEnd {
 				if (item && !l_BaseObjects.count({x.type, x.name})) item->Unregister();
 			}
 			for (auto& p : ObjectFiles()) if (!l_BaseFiles.count(p)) try { Utility::Remove(p); } catch (...) {}
+			for (auto& d : l_PkgDirs) try { Utility::RemoveDirRecursive(d); } catch (...) {}
+			l_PkgDirs.clear();
+			l_PkgFiles.clear();
 			ConfigItem::m_UnnamedItems.clear();
 			l_Tracked.clear();
 			l_GlobalsBase.clear();
